@@ -1282,6 +1282,14 @@ class ConnectionBase(object):
             # if inserting dropped unacked bits then those packets will time out
             # the user may want to know to slow down the sending rate
             # and/or the protocol may want to back off.
+
+            # a datagram older than the ack window can no longer be acked and
+            # the bitfield can no longer tell if it has been received before.
+            bitfield = self.bitfield_pkt
+            if bitfield.current_seqnum != 0 and \
+               bitfield.current_seqnum.diff(pkt.hdr.seq) > bitfield.nbits:
+                raise DuplicationError("datagram too old")
+
             self.bitfield_pkt.insert(pkt.hdr.seq)
         except DuplicationError:
             self.stats.dropped += 1
